@@ -361,3 +361,7 @@ package shutterservice
 //@   ensures forall i :: 0 <= i && i < len(keys.Keys) ==> (eons[i] == int64(keys.Eon) && identities[i] == keys.Keys[i].IdentityPreimage)
 //@   invariant len(eons) == rangeindex + 1 && len(identities) == rangeindex + 1
 //@   invariant forall i :: 0 <= i && i <= rangeindex ==> (eons[i] == int64(keys.Eon) && identities[i] == keys.Keys[i].IdentityPreimage)
+//@ // the comparison handed to sort.Slice orders the elements of the slice being sorted (the copy), byte-wise
+//@ func sortIdentityPreimages$1
+//@   requires 0 <= i && i < len(sorted) && 0 <= j && j < len(sorted)
+//@   ensures ret0 <==> bytesLT(content(sorted[i]), content(sorted[j]))
